@@ -89,6 +89,9 @@ func (e *vmEnv) NewConnection() (net.Conn, error) {
 			s, err := yamux.Client(peerSide, cfg)
 			if err == nil {
 				peer.session = s
+				if vcServe != nil {
+					vcServe(peer)
+				}
 			}
 		case a.ping == 0:
 			_ = peerSide.Close()
@@ -121,7 +124,18 @@ func (e *vmEnv) openCount() int {
 	return n
 }
 
+// when set, every peer session that answers pings also serves something on its yamux session (C11)
+var vcServe func(*vmPeer)
+
+// C11 runs in real time (gRPC's client internals hold locks across goroutine hand-offs, which a synctest bubble cannot wait out)
+var vmRealTime bool
+var vmRealSettle = 250 * time.Millisecond
+
 func vmScenario(lines []string, out func(string), listener OnConnectionListUpdate, extra func(*vmEnv, MultiMuxManager, []string) bool) {
+	vmScenarioWithHook(lines, out, listener, extra, nil)
+}
+
+func vmScenarioWithHook(lines []string, out func(string), listener OnConnectionListUpdate, extra func(*vmEnv, MultiMuxManager, []string) bool, hook func(MultiMuxManager)) {
 	f0 := strings.Fields(lines[0])
 	var size int64
 	fmt.Sscanf(f0[1], "%d", &size)
@@ -173,8 +187,15 @@ func vmScenario(lines []string, out func(string), listener OnConnectionListUpdat
 		return
 	}
 	mm := mgr.(*multiMuxManager)
+	if hook != nil {
+		hook(mgr)
+	}
 	mm.muxProvider.Start()
 	settle := func() {
+		if vmRealTime {
+			time.Sleep(vmRealSettle)
+			return
+		}
 		time.Sleep(45 * time.Second)
 		synctest.Wait()
 	}
